@@ -453,12 +453,19 @@ pub fn run(kind: &str, ctx: &Ctx, out: &mut dyn Write) {
         _ => "C16",
     };
     let mut k = 0;
-    for src in srcs.iter() {
+    let specials = crate::k_c01::special_inputs(kind);
+    let total = specials.len() + srcs.len();
+    for idx in 0..total {
         // C05 also gets c2d files that keep a false node (a separate generator class)
-        let c2d_false = matches!(kind, "c02" | "c03" | "c04" | "c05") && rng.chance(1, 6);
-        let inp = match make_input_class(format!("{}-{}", kind, k), src, &mut rng, c2d_false) {
-            Some(i) => i,
-            None => continue,
+        let (inp, c2d_false) = if idx < specials.len() {
+            (specials[idx].clone(), false)
+        } else {
+            let src = &srcs[idx - specials.len()];
+            let c2d_false = matches!(kind, "c02" | "c03" | "c04" | "c05") && rng.chance(1, 6);
+            match make_input_class(format!("{}-{}", kind, k), src, &mut rng, c2d_false) {
+                Some(i) => (i, c2d_false),
+                None => continue,
+            }
         };
         k += 1;
         let mut s = String::new();
@@ -494,5 +501,53 @@ pub fn run(kind: &str, ctx: &Ctx, out: &mut dyn Write) {
         }
         writeln!(s, "end").unwrap();
         out.write_all(s.as_bytes()).unwrap();
+        // the same requests through the stream interface (judged by the C13 checker: truth table,
+        // per-variable answers joined by ';', parameter order, fresh instance)
+        // C04 on a history: table, incremental unit-clause edit, table again on the same instance
+        if kind == "c04" && inp.n <= 12 && k % 2 == 0 {
+            if let (Some(ms), Ok(mut d)) = (inp.models.as_ref(), load(&inp.lines, Some(inp.n))) {
+                use ddnnife::parser::intermediate_representation::{ClauseApplication, IncrementalStrategy};
+                let holds = |m: u32, l: i32| ((m >> (l.unsigned_abs() - 1)) & 1 == 1) == (l > 0);
+                let cands: Vec<i32> = (1..=inp.n as i32)
+                    .flat_map(|v| [v, -v])
+                    .filter(|&l| ms.iter().any(|&m| holds(m, l)) && ms.iter().any(|&m| !holds(m, l)))
+                    .collect();
+                if !cands.is_empty() {
+                    let l = *rng.pick(&cands);
+                    let _ = guarded(|| d.card_of_each_feature().count());
+                    let r = guarded(|| d.prepare_and_apply_incremental_edit(vec![(vec![l], ClauseApplication::Add)]));
+                    if let Ok(IncrementalStrategy::UnitClause) = r {
+                        let mut s = String::new();
+                        writeln!(s, "case {}-edited {}", inp.id, tag).unwrap();
+                        writeln!(s, "info {} | table, then unit clause [{}] added incrementally, table again", inp.desc, l).unwrap();
+                        writeln!(s, "n {}", d.number_of_variables).unwrap();
+                        let kept: Vec<u32> = ms.iter().copied().filter(|&m| holds(m, l)).collect();
+                        let edited = Input { models: Some(kept), ..inp.clone() };
+                        write_models(&mut s, &edited);
+                        s.push_str(&dump_circuit(&d));
+                        run_op(&mut d, &Op::Table, &mut s);
+                        run_op(&mut d, &Op::Count(vec![]), &mut s);
+                        run_op(&mut d, &Op::Table, &mut s);
+                        writeln!(s, "end").unwrap();
+                        out.write_all(s.as_bytes()).unwrap();
+                    }
+                }
+            }
+        }
+        let cmd = match kind {
+            "c02" => Some("count"),
+            "c03" => Some("sat"),
+            "c05" => Some("core"),
+            _ => None,
+        };
+        if let Some(cmd) = cmd {
+            // (c2d files that keep a false node: finding K7 is reported by the direct call above)
+            if inp.n <= 12 && k % 3 == 0 && !(c2d_false && kind == "c05") {
+                let mut srng = Rng::new(ctx.seed ^ 0x5713_0000 ^ k as u64);
+                let lines = crate::k_c13::query_lines(cmd, inp.n, &mut srng, if quick { 8 } else { 24 });
+                let block = crate::k_c13::stream_case(&format!("{}-stream", inp.id), &inp, &lines);
+                out.write_all(block.as_bytes()).unwrap();
+            }
+        }
     }
 }
